@@ -20,11 +20,13 @@ pub struct Attribution {
     pub check_loc: bool,
     pub structural: bool,
     pub configs: Vec<Config>,
+    /// data-movement program: every SSA configuration must have zero AND gates (C15)
+    pub expect_zero_and: bool,
 }
 
 impl Attribution {
     pub fn standard() -> Self {
-        Attribution { value: vec!["C01"], panic: vec!["C02"], check_loc: true, structural: true, configs: CONFIGS.to_vec() }
+        Attribution { value: vec!["C01"], panic: vec!["C02"], check_loc: true, structural: true, configs: CONFIGS.to_vec(), expect_zero_and: false }
     }
     pub fn with_value(mut self, v: Vec<&'static str>) -> Self {
         self.value = v;
@@ -42,6 +44,7 @@ pub struct Stats {
     pub nontrivial: u64,
     pub gates: u64,
     pub and_gates: u64,
+    pub not_compiled: u64,
 }
 
 impl Stats {
@@ -54,6 +57,7 @@ impl Stats {
         self.nontrivial += o.nontrivial;
         self.gates += o.gates;
         self.and_gates += o.and_gates;
+        self.not_compiled += o.not_compiled;
     }
     pub fn to_local(&self, m: &mut BTreeMap<String, u64>) {
         *m.entry("programs".into()).or_insert(0) += self.programs;
@@ -64,6 +68,7 @@ impl Stats {
         *m.entry("nontrivial_programs".into()).or_insert(0) += self.nontrivial;
         *m.entry("gates_total".into()).or_insert(0) += self.gates;
         *m.entry("and_gates_total".into()).or_insert(0) += self.and_gates;
+        *m.entry("programs_not_compiled".into()).or_insert(0) += self.not_compiled;
     }
 }
 
@@ -165,10 +170,12 @@ pub fn check_program(case: ProgCase, attr: &Attribution, coll: &Collector, stats
             CompileOutcome::Ok(p) => compiled.push((cfg, p)),
             CompileOutcome::Rejected(e) => {
                 push(&["C05"], "rejected-welltyped", String::new(), Some(cfg), &[], format!("fully annotated well-typed program rejected: {e}"));
+                stats.not_compiled += 1;
                 return;
             }
             CompileOutcome::RustPanic(p) => {
                 push(&["C05", "C07"], "compile-rust-panic", String::new(), Some(cfg), &[], format!("compiler panicked: {p}"));
+                stats.not_compiled += 1;
                 return;
             }
         }
@@ -195,6 +202,9 @@ pub fn check_program(case: ProgCase, attr: &Attribution, coll: &Collector, stats
                 }
                 stats.gates += c.gates.len() as u64;
                 stats.and_gates += c.and_gates() as u64;
+                if attr.expect_zero_and && c.and_gates() != 0 {
+                    push(&["C15"], "data-movement-has-and-gates", String::new(), Some(*cfg), &[], format!("{} AND gates in a program that only moves data at constant positions", c.and_gates()));
+                }
                 if attr.structural {
                     for (kind, detail) in structural_scan(c, cfg.dedup) {
                         push(&["C15"], &kind, String::new(), Some(*cfg), &[], detail);
